@@ -121,6 +121,16 @@ func TestC19(t *testing.T) {
 		}
 		st.ClassN("invalid_utf8_in_context", int64(len(invalidSources())))
 	}
+	// oddities the parser accepts: a here-document operator inside a one-line
+	// substitution (its body is never read), also inside a here-document body
+	if sh == 2%nsh {
+		odd := []string{"echo $(cat <<E)\n", "echo `cat <<E`\n", "cat <<A\n$(cat <<B)\nA\n", "x=$(cat <<E)\n", "cat <<A\n`cat <<-B`\nA\n", "cat <<A\n${x:-$(cat <<B)}\nA\n",
+			"echo \"$(cat <<E)\"\n", "cat <<A <<B\n$(a <<C)\nA\nB\n", "f() { echo $(cat <<E); }\n", "echo $( (cat <<E) )\n", "echo $(<<E)\n", "a $(b <<X c) d <<Y\ny\nY\n"}
+		for _, src := range odd {
+			run(t, wproto.Req{Op: "downstream", Src: src, Lo: 0, Hi: 256, Dir: scratch}, true, false)
+		}
+		st.ClassN("odd_accepted_programs", int64(len(odd)))
+	}
 	// deeply nested multi-line programs under every configuration and indentation width
 	if sh == 1%nsh {
 		for _, src := range deepSources() {
@@ -181,7 +191,7 @@ func TestC19(t *testing.T) {
 			}
 			src := gen.Render(p.Stream, lay).Src
 			if rapid.IntRange(0, 5).Draw(rt, "odd") == 0 {
-				src = strings.TrimRight(src, "\n") + rapid.SampledFrom([]string{` \`, ` ""`, ` ''`, " $", ` "$"`, " <<E\nE\n", ` "" ''`, " >f"}).Draw(rt, "oddtail")
+				src = strings.TrimRight(src, "\n") + rapid.SampledFrom([]string{` \`, ` ""`, ` ''`, " $", ` "$"`, " <<E\nE\n", ` "" ''`, " >f", " ${9223372036854775808}", " ${18446744073709551616:-x}", " $((${99999999999999999999999}+1))", " ${#9223372036854775807}"}).Draw(rt, "oddtail")
 			}
 			lo := uint(rapid.IntRange(0, 31).Draw(rt, "cfgwindow") * 8)
 			run(rt, wproto.Req{Op: "downstream", Src: src, Lo: lo, Hi: lo + 8, Dir: scratch, Width: uint(rapid.IntRange(0, 6).Draw(rt, "width"))}, oddShape.MatchString(src) || strings.Contains(src, "<<"), true)
